@@ -715,7 +715,11 @@ func genSTLDoc(t *rapid.T, avoidKnown bool) stlDoc {
 	n := rapid.IntRange(0, 6).Draw(t, "cues")
 	base := d.GSI.TCP.frames(d.GSI.Rate)
 	for i := 0; i < n; i++ {
-		c := stlCue{VP: rapid.IntRange(1, 23).Draw(t, "vp"), JC: rapid.IntRange(0, 3).Draw(t, "jc"), UserDataBefore: rapid.SampledFrom([]int{0, 0, 0, 1, 2}).Draw(t, "ud")}
+		vpMin := 1
+		if !teletext {
+			vpMin = 0 // open subtitling: rows are counted from 0
+		}
+		c := stlCue{VP: rapid.IntRange(vpMin, 23).Draw(t, "vp"), JC: rapid.IntRange(0, 3).Draw(t, "jc"), UserDataBefore: rapid.SampledFrom([]int{0, 0, 0, 1, 2}).Draw(t, "ud")}
 		// timecodes at or after the programme start (times relative to it are non-negative)
 		in := base + genSTLTC(t, d.GSI.Rate, "in").frames(d.GSI.Rate)
 		out := base + genSTLTC(t, d.GSI.Rate, "out").frames(d.GSI.Rate)
@@ -748,7 +752,10 @@ func genSTLDoc(t *rapid.T, avoidKnown bool) stlDoc {
 					r.Italic, r.Underline, r.Box = m&1 > 0, m&2 > 0, m&4 > 0
 				}
 				if teletext {
-					r.Italic, r.Underline, r.Box = false, false, false
+					// italic / underline / boxing codes are honoured under the teletext display standards too
+					if rapid.Bool().Draw(t, "plainstyle") {
+						r.Italic, r.Underline, r.Box = false, false, false
+					}
 					if rapid.Bool().Draw(t, "hascolor") {
 						r.Color = rapid.IntRange(0, 7).Draw(t, "color")
 					} else if len(runs) > 0 {
